@@ -90,13 +90,19 @@ def run(pid, tier, seed):
             mt_local = rng.choice([last, last + 1, min(end_of_year, last + 86400 * 3), end_of_year - rng.randrange(0, 3600)])
             mt_local = max(mt_local, last)
             mtime = mt_local - tz_min * 60
-            cont = rng.choice(["plain", "plain", "gz", "tar"])
+            cont = rng.choice(["plain", "plain", "gz", "gz-fname", "gz-mtime0", "tar"])
             name = "y%d.log" % fi
             decoy = mtime - 86400 * 900  # a misleading container mtime
             if cont == "plain":
                 files, arg, mtimes = {name: blob}, name, {name: mtime}
             elif cont == "gz":
+                # header without the optional file name field (logrotate, `gzip < f`), time stamp in the header
                 files, arg, mtimes = {name + ".gz": gen.gz_bytes(blob, mtime=mtime)}, name + ".gz", {name + ".gz": decoy}
+            elif cont == "gz-fname":
+                files, arg, mtimes = {name + ".gz": gen.gz_bytes(blob, mtime=mtime, name=name)}, name + ".gz", {name + ".gz": decoy}
+            elif cont == "gz-mtime0":
+                # header time stamp 0 = "no time stamp available" (gzip -n, RFC 1952): the file's own modification time counts
+                files, arg, mtimes = {name + ".gz": gen.gz_bytes(blob, mtime=0, name=rng.choice([None, name]))}, name + ".gz", {name + ".gz": mtime}
             else:
                 files, arg, mtimes = {"y%d.tar" % fi: gen.tar_bytes([(name, blob)], mtime=mtime)}, "y%d.tar" % fi, {"y%d.tar" % fi: decoy}
             tzs = "%s%02d:%02d" % ("+" if tz_min >= 0 else "-", abs(tz_min) // 60, abs(tz_min) % 60)
